@@ -6,6 +6,7 @@ use crate::refimpl::wire::varint_encode;
 use crate::refimpl::{hashes, secp};
 use crate::{ensure, ensure_eq, ensure_eq_hex};
 use bsv::{ChainParams, P2PKHAddress, Signature, BSM};
+use num_traits::Zero;
 use proptest::prelude::*;
 use serde::{Deserialize, Serialize};
 
@@ -19,6 +20,10 @@ pub enum Corr {
     SigBit(u16),
     OtherKey(Scalar),
     OtherForm,
+    /// a well-formed compact signature nobody signed: r = x(kG), s = z/k, whose recovered key is the point at infinity
+    NoSigner(Scalar),
+    /// a signature made by the reference implementation with another key and this nonce (valid for that key's address only)
+    ForeignSigner(Scalar, Scalar),
 }
 
 #[derive(Clone, Debug, Serialize, Deserialize)]
@@ -53,7 +58,7 @@ impl Property for C12 {
     const ID: &'static str = "C12";
 
     fn rule() -> String {
-        "Keys from the boundary set x both compression forms; message lengths 0, 1, 252, 253, 254, 65535, 65536, 65537 and uniform; every network prefix byte; deterministic and caller-nonce signing; corruptions: one message bit, an appended byte, each bit of the 65-byte compact signature, the address of another key, the address of the same key in the other compression form. Oracle: the signed digest is reference SHA-256d of varint(24)||magic||varint(len)||message and (r, s) the reference RFC 6979 signature over it; the header byte is 27..30 / 31..34 by form; the signature must verify through all four verify entry points against the key's address under every prefix, also after the compact round trip; every corruption must fail. Non-trivial = uncompressed key, non-zero prefix, message >= 253 bytes, or a negative case; distinct by hash of the serialised case.".into()
+        "Keys from the boundary set x both compression forms; message lengths 0, 1, 252, 253, 254, 65535, 65536, 65537 and uniform; every network prefix byte; deterministic and caller-nonce signing; corruptions: one message bit, an appended byte, each bit of the 65-byte compact signature, a well-formed signature nobody signed (r = x(kG), s = z/k), a signature made by the reference signer with another key (which must verify for that key and for no other), the address of another key, the address of the same key in the other compression form. Oracle: the signed digest is reference SHA-256d of varint(24)||magic||varint(len)||message and (r, s) the reference RFC 6979 signature over it; the header byte is 27..30 / 31..34 by form; the signature must verify through all four verify entry points against the key's address under every prefix, also after the compact round trip; every corruption must fail. Non-trivial = uncompressed key, non-zero prefix, message >= 253 bytes, or a negative case; distinct by hash of the serialised case.".into()
     }
 
     fn assumptions() -> Vec<String> {
@@ -76,6 +81,8 @@ impl Property for C12 {
             5 => (0u16..520).prop_map(Corr::SigBit),
             2 => keys::scalar().prop_map(Corr::OtherKey),
             1 => Just(Corr::OtherForm),
+            1 => keys::scalar().prop_map(Corr::NoSigner),
+            2 => (keys::scalar(), keys::scalar()).prop_map(|(o, k)| Corr::ForeignSigner(o, k)),
         ];
         (keys::key(), msg, prop_oneof![3 => Just(0u8), 2 => Just(0x6fu8), 2 => any::<u8>()], prop::option::weighted(0.3, keys::scalar()), prop::option::weighted(0.6, corr))
             .prop_map(|(key, msg, prefix, nonce, corrupt)| Case { key, msg, prefix, nonce, corrupt })
@@ -169,6 +176,41 @@ impl Property for C12 {
                         }
                         let other = Key { d: s.clone(), compressed: c.key.compressed };
                         addr2 = P2PKHAddress::from_pubkey_hash(&hashes::hash160(&other.pub_bytes())).unwrap().set_chain_params(&ChainParams::new(c.prefix, 5, 0x80, 0, 0, 0)).unwrap();
+                    }
+                    Corr::NoSigner(k) => {
+                        let n = secp::n();
+                        let kv = k.value();
+                        let (rx, odd) = match secp::pubkey(&kv) {
+                            secp::Point::Affine { x, y } => (x, y.bit(0)),
+                            _ => return Ok(o),
+                        };
+                        let (rv, sv) = (&rx % &n, (&z % &n) * secp::mod_inv(&kv, &n) % &n);
+                        if rv.is_zero() || sv.is_zero() || rx >= n {
+                            return Ok(o);
+                        }
+                        let mut cb = vec![27 + odd as u8 + if c.key.compressed { 4 } else { 0 }];
+                        cb.extend_from_slice(&secp::be32(&rv));
+                        cb.extend_from_slice(&secp::be32(&sv));
+                        sig2 = lib_call("from_compact_bytes(no signer)", || Signature::from_compact_bytes(&cb))?.map_err(|e| failure("from_compact_bytes", e.to_string(), "Ok: r and s in range"))?;
+                        o.label("signature-without-a-signer");
+                    }
+                    Corr::ForeignSigner(other, k) => {
+                        if other.value() == d {
+                            return Ok(o);
+                        }
+                        let Some(fs) = secp::sign_with_k(&other.value(), &z, &k.value(), true) else { return Ok(o) };
+                        let mut cb = vec![27 + fs.recid + if c.key.compressed { 4 } else { 0 }];
+                        cb.extend_from_slice(&secp::be32(&fs.r));
+                        cb.extend_from_slice(&secp::be32(&fs.s));
+                        sig2 = lib_call("from_compact_bytes(foreign)", || Signature::from_compact_bytes(&cb))?.map_err(|e| failure("from_compact_bytes", e.to_string(), "Ok"))?;
+                        // complete for its own signer: the address of the other key (same form, same prefix) accepts it
+                        let fk = Key { d: other.clone(), compressed: c.key.compressed };
+                        let faddr = P2PKHAddress::from_pubkey_hash(&hashes::hash160(&fk.pub_bytes())).unwrap().set_chain_params(&ChainParams::new(c.prefix, 5, 0x80, 0, 0, 0)).unwrap();
+                        let fv = all_verifiers(&m2, &sig2, &faddr)?;
+                        if fv != [true; 4] {
+                            return Err(failure("reference_made_signature_verifies", format!("{:?} for a signature made by the reference signer", fv), "all true"));
+                        }
+                        o.label("reference-made-signature");
                     }
                     Corr::OtherForm => {
                         let other = Key { d: c.key.d.clone(), compressed: !c.key.compressed };
